@@ -50,6 +50,17 @@ Theorem C16_phaser_model_in_frame :
 Proof. exact phase_aa_in_frame. Qed.
 Print Assumptions C16_phaser_model_in_frame.
 
+(* a sequence holding the reference ORF verbatim, once, is trimmed at that ORF's start: a FINITE statement,
+   by exhaustive evaluation of the code model in the kernel (three reference ORFs, every left and right
+   flank of length 0..2 over {A,C,G,T}, amino-acid and nucleotide modes, one or both strands) *)
+Theorem C16_verbatim_copy_trimmed_at_orf_start_small :
+  forall orf translate rev_too l r, In orf small_orfs -> In l flanks -> In r flanks ->
+  let s := l ++ orf ++ r in
+  occurrences orf s = 1%nat -> (rev_too = true -> occurrences orf (fst (revcomp_seq s)) = 0%nat) ->
+  exists p, phase_all translate rev_too false 0%Z (Some [orf]) [s] = Some [ORes p] /\ p_pos p = Z.of_nat (length l).
+Proof. exact verbatim_copy_trimmed_at_orf_start_small. Qed.
+Print Assumptions C16_verbatim_copy_trimmed_at_orf_start_small.
+
 (* whatever the order in which the workers take the sequences, the collection of results is the same *)
 Theorem C16_results_independent_of_schedule : forall (A B : Type) (f : A -> B) (seqs order : list A),
   Permutation seqs order -> Permutation (map f seqs) (map f order).
